@@ -71,7 +71,7 @@ func main() {
 		os.Exit(2)
 	}
 	w.LoadS = time.Since(t0).Seconds()
-	rc := &runCtx{w: w, verif: *verif, tier: *tier, seed: seed, workers: runtime.NumCPU() / 2}
+	rc := &runCtx{w: w, verif: *verif, tier: *tier, seed: seed, workers: runtime.NumCPU() * 3 / 4}
 	if rc.workers < 2 {
 		rc.workers = 2
 	}
@@ -894,6 +894,10 @@ func splitAnd(g string) []string {
 // induction hypothesis is the statement for n-1).
 func lemmaObligation(w *World, lv lemmaVC) *Obligation {
 	tr := &FnCtx{W: w, Short: "lemma"}
+	if lv.custom != nil {
+		tr.cmds = lv.custom
+		return &Obligation{Name: lv.name, Fn: "lemma", Kind: "lemma", Prefix: len(tr.cmds), Goal: lv.goal, Src: lv.src, Ctx: tr}
+	}
 	tr.cmds = append(tr.cmds, lv.rec)
 	// constants
 	decl := lv.decls
